@@ -351,6 +351,31 @@ func genC02(r *rngT, n int, tier string) {
 				c[1+r.Intn(len(c)-1)] = r.byte()
 			}
 			execOp(fmt.Sprintf("read %s - 0 %s one", dn, encStream(bytesItems(c))))
+			// the same gate on a signed link: a frame whose checksum is wrong BEFORE it is signed (a sender built from another
+			// revision of the dialect, or a deliberately wrong checksum) carries a valid signature and must still be refused
+			if ver == 2 {
+				key := r.bytes(32)
+				for _, variant := range []int{0, 1, 2, 3} {
+					g := validDialectFrame(r, dn, m, 2).(*frame.V2Frame)
+					g.IncompatibilityFlag = 1
+					g.SignatureLinkID = r.byte()
+					g.SignatureTimestamp = uint64(1000 + r.Intn(1000000))
+					if rw := getDialectRW(dn).GetMessage(g.Message.GetID()); rw != nil {
+						setChecksum(g, rw.CRCExtra())
+					}
+					switch variant {
+					case 1:
+						g.Checksum ^= 1 << uint(r.Intn(16))
+					case 2:
+						g.Checksum = 0
+					case 3:
+						g.Checksum = uint16(r.Intn(65536))
+					}
+					sign(g, key)
+					execOp(fmt.Sprintf("read %s %s 0 %s one", dn, hx(key), encStream(bytesItems(refFrameBytes(g)))))
+					stat("c02-signed-gate")
+				}
+			}
 		}
 	}
 }
